@@ -5,20 +5,31 @@ func (cw *CodeWriter) WriteLeadingComments(comments []string) {
 		return
 	}
 
+	// Nothing written yet: blank lines and the space before a trailing comment
+	// would only be trimmed from the start of the output afterwards
+	atStart := cw.Builder.Len() == 0
 	for i, comment := range comments {
 		isComment := len(comment) > 0
-		if i == 0 {
+		if atStart {
+			if !isComment {
+				continue
+			}
+			atStart = false
+		} else if i == 0 {
 			if isComment {
-				cw.Builder.WriteRune(' ')
+				cw.writeLayout(" ")
 			}
 		} else {
 			cw.writeNewline()
 			cw.writeIndent()
 		}
 		if isComment {
-			cw.Builder.WriteString("//")
+			cw.writeLayout("//")
 		}
-		cw.Builder.WriteString(comment)
+		cw.writeLayout(comment)
+	}
+	if atStart {
+		return
 	}
 
 	// Clear pendings and move to the next line
